@@ -1,4 +1,152 @@
-(* C11 - auto_config: building as_buildable() equals calling the function. *)
-From Fiddle Require Import PyBase PySlice Sig ArgStore PyCall Heap Traverse Build Lang Anchors.
+(* C11 - auto_config: building as_buildable() equals calling the function.
+   "For every function in auto_config's supported subset, fdl.build(fn.as_buildable( *args ))
+    produces an object graph structurally identical in values, types and sharing to the one
+    returned by fn( *args ); as_buildable itself invokes none of the configurable callables."
 
-Example C11_placeholder : True. Proof. exact I. Qed.
+   Model: Lang.v (straight-line configuration programs with ONE evaluator: cfg = false runs the
+   function, cfg = true is what as_buildable computes), Build.build_node + Traverse.mrun (fdl.build),
+   PyCall.py_call (CPython's argument binding), Lang.norm_heap (functools.partial objects compared
+   up to argument binding).  Statements only; proofs are in theories/Lang_proofs.v.
+
+   Hypotheses of the main theorem:
+     valid_sig / atom defaults - every callable has a valid Python parameter list whose default
+       values are immutable leaves (a default is not configured, so it is not rebuilt);
+     wf_b, Forall <plain container>, ref_below - the argument objects are well-formed (acyclic)
+       lists / tuples / dicts / namedtuples of leaves and of each other: fdl.build copies such
+       containers, it does not copy arbitrary objects (C11_needs_plain_args shows that the
+       statement is false for an argument object that shares a list with another argument);
+     both evaluations succeed (neither as_buildable nor the call raises TypeError).
+   Isomorphism is stated as in C07 (Iso_proofs): a one-to-one correspondence m between object ids
+   (bij_wf) under which corresponding objects have the same type and non-reference data and
+   corresponding references (simulates), and which relates the two roots (rel_ref). *)
+From Fiddle Require Import PyBase PySlice Sig ArgStore PyCall Heap Traverse Build Build_stmt
+  Iso_proofs C02Check Lang Lang_proofs Anchors.
+From Coq Require Import List.
+Import ListNotations.
+Local Open Scope nat_scope.
+
+(* 1. as_buildable( *args ) invokes nothing: whether it succeeds or raises, it leaves the argument
+   objects untouched (the initial heap is a prefix of the result) and everything it creates is a
+   list, a tuple, a dict, a Config or a Partial (without tags) - never the result of calling a
+   configurable callable (NObj), never a functools.partial (NPartialObj). *)
+Theorem C11_as_buildable_no_invocation : forall e fuel args o p hc res,
+  run_program e true fuel args o p = (hc, res) ->
+  exists d, hc = o ++ d /\
+    Forall (fun n => match n with
+                     | NList _ | NTuple _ | NDict _ => True
+                     | NBuildable BConfig _ _ [] | NBuildable BPartial _ _ [] => True
+                     | _ => False
+                     end) d.
+Proof. exact as_buildable_no_invocation. Qed.
+Print Assumptions C11_as_buildable_no_invocation.
+
+Example C11_as_buildable_no_invocation_nonvacuous :
+  exists hc rc, run_program ex_env true 10 ex_args ex_heap ex_prog = (hc, Some rc).
+Proof. do 2 eexists. vm_compute. reflexivity. Qed.
+
+(* 2. The Config that as_buildable makes from a call site f(ps, **ks) (inspect's bind_partial
+   into Fiddle's storage format) is called by fdl.build - ordered arguments, build-time
+   transformation, CPython binding - with exactly the view vw that the direct call gives f:
+   build_node allocates NObj f vw.  (Argument values stand for themselves here; the next theorem
+   is the same with built arguments.) *)
+Theorem C11_binding_agrees : forall e fails i fn ps ks st vw o,
+  valid_sig (sig_of e fn) = true ->
+  signature_binding (sig_of e fn) ps ks = Some st ->
+  py_call (sig_of e fn) ps (map (fun kv => (KName (fst kv), snd kv)) ks) = Some vw ->
+  fails i = None ->
+  build_node e fails i (NBuildable BConfig fn st []) (map snd (flat_args e fn st)) o
+  = (o ++ [NObj fn vw], inl (RP (length o))).
+Proof. exact binding_agrees. Qed.
+Print Assumptions C11_binding_agrees.
+
+(* ... and when every argument x has been built into mu x (mu leaves the callee's defaults alone),
+   the callee observes the direct call's view with every value replaced by what it was built into *)
+Theorem C11_binding_agrees_built : forall e fn ps ks st vw (mu : ref -> ref),
+  valid_sig (sig_of e fn) = true ->
+  (forall p d, In p (sig_of e fn) -> pdefault p = Some d -> mu d = d) ->
+  signature_binding (sig_of e fn) ps ks = Some st ->
+  py_call (sig_of e fn) ps (map (fun kv => (KName (fst kv), snd kv)) ks) = Some vw ->
+  build1 (sig_of e fn)
+    (combine (map fst (flat_args e fn st)) (map mu (map snd (flat_args e fn st))))
+  = Some (map (fun nx => (fst nx,
+                          match snd nx with
+                          | PV v => PV (mu v)
+                          | PTuple l => PTuple (map mu l)
+                          | PDict d => PDict (map (fun kv => (fst kv, mu (snd kv))) d)
+                          end)) vw).
+Proof. exact binding_agrees_gen. Qed.
+Print Assumptions C11_binding_agrees_built.
+
+(* fb(x, /, y, *args, k=0, **kw) called as fb(1, 2, 3, k=4, z=5) *)
+Example C11_binding_agrees_nonvacuous :
+  valid_sig (sig_of ex_env 11) = true /\
+  (exists st, signature_binding (sig_of ex_env 11) [RA (AInt 1); RA (AInt 2); RA (AInt 3)]
+                [(6%N, RA (AInt 4)); (9%N, RA (AInt 5))] = Some st) /\
+  (exists vw, py_call (sig_of ex_env 11) [RA (AInt 1); RA (AInt 2); RA (AInt 3)]
+                (map (fun kv => (KName (fst kv), snd kv)) [(6%N, RA (AInt 4)); (9%N, RA (AInt 5))])
+              = Some vw).
+Proof. split; [reflexivity |]. split; eexists; vm_compute; reflexivity. Qed.
+
+(* 3. The main theorem: whenever as_buildable( *args ) and fn( *args ) both succeed, fdl.build of
+   the configuration succeeds (no TypeError, no cycle, enough fuel) and the object graph it
+   returns is isomorphic - values, types, sharing - to the one the function returns. *)
+Theorem C11_build_equals_call : forall e fuel args o p hc rc hp rp,
+  (forall fn, valid_sig (sig_of e fn) = true) ->
+  (forall fn q i, In q (sig_of e fn) -> pdefault q <> Some (RP i)) ->
+  wf_b e o = true ->
+  Forall (fun n => match n with
+                   | NList _ | NTuple _ | NDict _ | NDefaultDict _ _ | NNamedTuple _ _ => True
+                   | _ => False
+                   end) o ->
+  forallb (ref_below (length o)) args = true ->
+  run_program e true fuel args o p = (hc, Some rc) ->
+  run_program e false fuel args o p = (hp, Some rp) ->
+  exists s rb,
+    mrun e hc (build_node e no_fail) rc = (s, inl rb) /\
+    exists m, bij_wf m /\ simulates (norm_heap e (out s)) (norm_heap e hp) m /\ rel_ref m rb rp.
+Proof. exact build_equals_call. Qed.
+Print Assumptions C11_build_equals_call.
+
+(* a program with a local used twice, a functools.partial and *args / **kwargs: every hypothesis
+   holds, and the executable checker of C11Check agrees *)
+Example C11_build_equals_call_nonvacuous :
+  env_ok_b ex_env = true /\ wf_b ex_env ex_heap = true /\ forallb plain_b ex_heap = true /\
+  forallb (ref_below (length ex_heap)) ex_args = true /\
+  exists hc rc hp rp s rb,
+    run_program ex_env true 10 ex_args ex_heap ex_prog = (hc, Some rc) /\
+    run_program ex_env false 10 ex_args ex_heap ex_prog = (hp, Some rp) /\
+    mrun ex_env hc (build_node ex_env no_fail) rc = (s, inl rb) /\
+    iso_b (norm_heap ex_env (out s)) (norm_heap ex_env hp) rb rp = true.
+Proof.
+  repeat (split; [reflexivity |]). do 6 eexists.
+  split; [vm_compute; reflexivity |]. split; [vm_compute; reflexivity |].
+  split; [vm_compute; reflexivity |]. vm_compute. reflexivity.
+Qed.
+
+(* the boolean checks used above imply the hypotheses of the theorem *)
+Theorem C11_checks_sound : forall e o,
+  (env_ok_b e = true ->
+   (forall fn, valid_sig (sig_of e fn) = true) /\
+   (forall fn q i, In q (sig_of e fn) -> pdefault q <> Some (RP i))) /\
+  (forallb plain_b o = true ->
+   Forall (fun n => match n with
+                    | NList _ | NTuple _ | NDict _ | NDefaultDict _ _ | NNamedTuple _ _ => True
+                    | _ => False
+                    end) o).
+Proof. exact checks_sound. Qed.
+Print Assumptions C11_checks_sound.
+
+(* The restriction on the argument objects is necessary: with an argument that is an arbitrary
+   object holding a list that is also passed as an argument, both evaluations and the build
+   succeed, but the results are NOT isomorphic (the build copied the list; the object still holds
+   the original). *)
+Theorem C11_needs_plain_args :
+  exists o args p hc rc hp rp s rb,
+    wf_b ex_env o = true /\ forallb (ref_below (length o)) args = true /\
+    run_program ex_env true 10 args o p = (hc, Some rc) /\
+    run_program ex_env false 10 args o p = (hp, Some rp) /\
+    mrun ex_env hc (build_node ex_env no_fail) rc = (s, inl rb) /\
+    ~ exists m, bij_wf m /\ simulates (norm_heap ex_env (out s)) (norm_heap ex_env hp) m /\
+                rel_ref m rb rp.
+Proof. exact build_equals_call_needs_plain_args. Qed.
+Print Assumptions C11_needs_plain_args.
